@@ -16,6 +16,8 @@ import D2V.Model.Vars
   * `resolve_closed` / `substWith_closed`  the substituted text contains no substitution any more (so the
                               textual twin `substText p` is a program without variables references)
   * `whole_value_keeps_quoting` `${x}` alone takes the definition's scalar as written, quoting included
+  * `C13_subst_is_text_node`  the string the compiler's substitution leaves in a node is the content of the textually
+                              substituted scalar (whole-program version: checked per run through the real compiler)
 -/
 namespace D2V.Vars
 open D2V.SemAst
@@ -194,6 +196,41 @@ theorem resolve_closed : ∀ (n : Nat) (stk : Stack) (self : Option String) (p :
 theorem substScal_closed (stk : Stack) (self : Option String) (host out : Scal)
     (h : substScal stk self host = .ok out) : closed out :=
   substWith_closed _ (fun p v hv => resolve_closed _ stk self p v hv) host out h
+
+/-! ### the node after substitution reads as its textual twin -/
+
+theorem contentOf_lit (q : Nat) (t : String) : contentOf { q := q, parts := [.lit t] } = t := by
+  simp [contentOf]
+
+theorem mixed_tail (r : Path → Except Err Scal) (parts : List Part) :
+    spliceAll r parts = mapE contentOf (match spliceAll r parts with
+      | Except.ok t => Except.ok { q := 1, parts := [Part.lit t] }
+      | Except.error e => Except.error e) := by
+  cases spliceAll r parts with
+  | error e => rfl
+  | ok t => simp [mapE, contentOf_lit]
+
+/-- **C13_subst_is_text** (one scalar): the string the compiler's substitution leaves in a node (`evalNode`, the
+    model of `resolveSubstitutions`: whole-value replacement or per-box `ScalarString` + `Coalesce`) is the string
+    content of the textually substituted scalar `substWith`; errors coincide -/
+theorem C13_subst_is_text_node (r : Path → Except Err Scal) (host : Scal) :
+    evalNode r host = mapE contentOf (substWith r host) := by
+  obtain ⟨q, parts⟩ := host
+  unfold evalNode substWith
+  by_cases h1 : q = 2
+  · simp [h1, mapE]
+  · by_cases h2 : Scal.hasSub { q := q, parts := parts } = false
+    · simp [h1, h2, mapE]
+    · rw [if_neg h1, if_neg h2, if_neg h1, if_neg h2]
+      rcases parts with _ | ⟨x, _ | ⟨y, rest⟩⟩
+      · cases q <;> exact mixed_tail r []
+      · cases x with
+        | lit s => cases q <;> exact mixed_tail r [.lit s]
+        | sub p =>
+          cases q with
+          | zero => rfl
+          | succ n => exact mixed_tail r [.sub p]
+      · cases q <;> cases x <;> exact mixed_tail r (_ :: y :: rest)
 
 /-! ### non-vacuity and worked instances (the examples of the d2 documentation and of compile.go) -/
 
